@@ -55,15 +55,43 @@ def GotOK (fls : List (Flight κ)) (b : Nat → Bool) : List (κ × Nat) → Lis
   | e :: es, f :: fs =>
     (∃ (fl : Flight κ) (id : Id), fls[f]? = some fl ∧ fl.key = e.1 ∧ fl.ans = some (some (id, e.2)) ∧ b f = false) ∧ GotOK fls b es fs
 
+/-- the caller is inside prepareStatement for its next entry, holding flight f -/
+def Holds (fls : List (Flight κ)) (cl : Caller κ) (f : Nat) : Prop :=
+  cl.got.length < cl.entries.length ∧ GotOK fls cl.banned cl.entries cl.got ∧
+    ∃ (fl : Flight κ) (e : κ × Nat), fls[f]? = some fl ∧ cl.entries[cl.got.length]? = some e ∧ fl.key = e.1 ∧ cl.banned f = false
+
 structure CallerOK (fls : List (Flight κ)) (cl : Caller κ) : Prop where
   ne  : cl.entries ≠ []
   ban : ∀ f, cl.banned f = true → isRemovedL fls f = true
   pcs : match cl.pc with
     | .start => cl.got.length < cl.entries.length ∧ GotOK fls cl.banned cl.entries cl.got
-    | .waiting f => cl.got.length < cl.entries.length ∧ GotOK fls cl.banned cl.entries cl.got ∧
-        ∃ (fl : Flight κ) (e : κ × Nat), fls[f]? = some fl ∧ cl.entries[cl.got.length]? = some e ∧ fl.key = e.1 ∧ cl.banned f = false
+    | .won f => Holds fls cl f
+    | .waiting f => Holds fls cl f
     | .answered _ => True
     | .returned => True
+    | .abandoned => True
+    | .lagging => cl.got.length = cl.entries.length ∧ GotOK fls cl.banned cl.entries cl.got
+
+/-- the caller accounts for flight f while its PREPARE has not reached the server: it published it and is about
+    to start the goroutine, it waits for it, or it gave up on its context (after starting the goroutine) -/
+def Owns (pc : PC) (f : Nat) : Prop := pc = .won f ∨ pc = .waiting f ∨ pc = .abandoned
+
+theorem not_owns_start {pc : PC} {f : Nat} (h : pc = .start) : ¬ Owns pc f := by
+  intro ho; rcases ho with ho | ho | ho <;> (rw [h] at ho; cases ho)
+theorem not_owns_answered {pc : PC} {a : XAns} {f : Nat} (h : pc = .answered a) : ¬ Owns pc f := by
+  intro ho; rcases ho with ho | ho | ho <;> (rw [h] at ho; cases ho)
+theorem not_owns_lagging {pc : PC} {f : Nat} (h : pc = .lagging) : ¬ Owns pc f := by
+  intro ho; rcases ho with ho | ho | ho <;> (rw [h] at ho; cases ho)
+theorem owns_waiting {pc : PC} {f g : Nat} (h : pc = .waiting f) (ho : Owns pc g) : g = f := by
+  rcases ho with ho | ho | ho <;> rw [h] at ho
+  · cases ho
+  · injection ho with ho; exact ho.symm
+  · cases ho
+theorem owns_won {pc : PC} {f g : Nat} (h : pc = .won f) (ho : Owns pc g) : g = f := by
+  rcases ho with ho | ho | ho <;> rw [h] at ho
+  · injection ho with ho; exact ho.symm
+  · cases ho
+  · cases ho
 
 structure Inv (s : State κ) : Prop where
   cached   : ∀ (k : κ) (f : Nat), s.cache k = some f → ∃ fl : Flight κ, s.flights[f]? = some fl ∧ fl.key = k ∧ fl.removed = false
@@ -71,7 +99,10 @@ structure Inv (s : State κ) : Prop where
   doneAns  : ∀ (f : Nat) (fl : Flight κ), s.flights[f]? = some fl → fl.done = true → fl.ans ≠ none
   failRem  : ∀ (f : Nat) (fl : Flight κ), s.flights[f]? = some fl → fl.done = true → fl.ans = some none → fl.removed = true
   callers  : ∀ (c : Nat) (cl : Caller κ), s.callers[c]? = some cl → CallerOK s.flights cl
-  waiter   : ∀ (f : Nat) (fl : Flight κ), s.flights[f]? = some fl → fl.ans = none → ∃ (c : Nat) (cl : Caller κ), s.callers[c]? = some cl ∧ cl.pc = .waiting f
+  waiter   : ∀ (f : Nat) (fl : Flight κ), s.flights[f]? = some fl → fl.ans = none →
+               ∃ (c : Nat) (cl : Caller κ), s.callers[c]? = some cl ∧ hasKey cl.entries fl.key = true ∧ Owns cl.pc f
+  unspawned : ∀ (f : Nat) (fl : Flight κ), s.flights[f]? = some fl → fl.spawned = false →
+               ∃ (c : Nat) (cl : Caller κ), s.callers[c]? = some cl ∧ cl.pc = .won f
 
 /-- flights only ever gain information -/
 def FlMono (fls fls' : List (Flight κ)) : Prop :=
@@ -123,6 +154,11 @@ theorem callerOK_mono {fls fls' : List (Flight κ)} (hm : FlMono fls fls') (cl :
   | start =>
     rw [hpc] at hp
     exact ⟨hp.1, gotOK_mono hm _ _ _ hp.2⟩
+  | won f =>
+    rw [hpc] at hp
+    obtain ⟨h1, h2, fl, e, h3, h4, h5, h6⟩ := hp
+    obtain ⟨fl', g1, g2, _, _⟩ := hm f fl h3
+    exact ⟨h1, gotOK_mono hm _ _ _ h2, fl', e, g1, h4, g2.trans h5, h6⟩
   | waiting f =>
     rw [hpc] at hp
     obtain ⟨h1, h2, fl, e, h3, h4, h5, h6⟩ := hp
@@ -130,6 +166,10 @@ theorem callerOK_mono {fls fls' : List (Flight κ)} (hm : FlMono fls fls') (cl :
     exact ⟨h1, gotOK_mono hm _ _ _ h2, fl', e, g1, h4, g2.trans h5, h6⟩
   | answered a => trivial
   | returned => trivial
+  | abandoned => trivial
+  | lagging =>
+    rw [hpc] at hp
+    exact ⟨hp.1, gotOK_mono hm _ _ _ hp.2⟩
 
 /-- appending a taken flight at the position of the next entry -/
 theorem gotOK_snoc (fls : List (Flight κ)) (b : Nat → Bool) :
@@ -149,9 +189,12 @@ theorem gotOK_snoc (fls : List (Flight κ)) (b : Nat → Bool) :
 
 def PcRel : PC → OPC → Prop
   | .start, p => p.live = true
+  | .won _, p => p.live = true
   | .waiting _, p => p.live = true
   | .answered a, p => p = .awaiting a
   | .returned, p => p = .returned
+  | .abandoned, p => p.gaveUp = true
+  | .lagging, p => p = .abandoned true
 
 def absFlight (fls : List (Flight κ)) (f : Nat) : Option (OFlight κ) :=
   match fls[f]? with
@@ -165,6 +208,8 @@ structure Rel (s : State κ) (o : OState κ) : Prop where
   flight : ∀ f, o.flights f = absFlight s.flights f
   known  : ∀ f, o.flights f ≠ none → f ∈ o.known
   credit : ∀ k, o.credit k = unann s.flights k + (if s.cache k = none then 1 else 0)
+  canc   : o.cancelled = s.cancelled
+  strict : o.strict = s.strict
 
 theorem removedNow_eq {s : State κ} {o : OState κ} (hR : Rel s o) : removedNow o = isRemoved s := by
   funext f
@@ -178,6 +223,19 @@ theorem removedNow_eq {s : State κ} {o : OState κ} (hR : Rel s o) : removedNow
     by_cases h : fl.ans = none ∧ fl.removed = false
     · simp [h]
     · simp [h]
+
+theorem mem_of_getElem? {α : Type} {l : List α} {i : Nat} {a : α} (h : l[i]? = some a) : a ∈ l := by
+  obtain ⟨hlt, h2⟩ := List.getElem?_eq_some_iff.1 h
+  exact h2 ▸ List.getElem_mem hlt
+
+theorem hasKey_of_getElem? {es : List (κ × Nat)} {i : Nat} {e : κ × Nat} (h : es[i]? = some e) : hasKey es e.1 = true := by
+  unfold hasKey
+  exact List.any_eq_true.2 ⟨e, mem_of_getElem? h, by simp⟩
+
+theorem absFlight_ans {fls : List (Flight κ)} {f : Nat} {fl : Flight κ} (hf : fls[f]? = some fl) (ha : fl.ans ≠ none) :
+    absFlight fls f = some ⟨fl.key, fl.ans, fl.removed⟩ := by
+  unfold absFlight
+  simp [hf, ha]
 
 theorem getElem?_snoc_cases {α : Type} (l : List α) (x y : α) (i : Nat) (h : (l ++ [x])[i]? = some y) :
     (i < l.length ∧ l[i]? = some y) ∨ (i = l.length ∧ y = x) := by
@@ -203,21 +261,29 @@ theorem getElem?_set_cases {α : Type} (l : List α) (i j : Nat) (a y : α) (h :
 /-! ### updating one caller -/
 
 theorem inv_updCaller {s : State κ} {c : Nat} {cl cl' : Caller κ} (hI : Inv s) (hc : s.callers[c]? = some cl)
-    (hok : CallerOK s.flights cl')
-    (hw : ∀ (f : Nat) (fl : Flight κ), cl.pc = .waiting f → s.flights[f]? = some fl → fl.ans = none → cl'.pc = .waiting f) :
+    (hok : CallerOK s.flights cl') (he : cl'.entries = cl.entries)
+    (hw : ∀ (f : Nat) (fl : Flight κ), Owns cl.pc f → s.flights[f]? = some fl → fl.ans = none → Owns cl'.pc f)
+    (hu : ∀ (f : Nat) (fl : Flight κ), cl.pc = .won f → s.flights[f]? = some fl → fl.spawned = false → cl'.pc = .won f) :
     Inv { s with callers := s.callers.set c cl' } := by
   have hlt : c < s.callers.length := (List.getElem?_eq_some_iff.1 hc).1
-  refine ⟨hI.cached, hI.uncached, hI.doneAns, hI.failRem, ?_, ?_⟩
+  refine ⟨hI.cached, hI.uncached, hI.doneAns, hI.failRem, ?_, ?_, ?_⟩
   · intro c' x hx
     rcases getElem?_set_cases _ _ _ _ _ hx with ⟨_, h2⟩ | ⟨_, h2⟩
     · subst h2; exact hok
     · exact hI.callers c' x h2
   · intro f fl hf ha
-    obtain ⟨c0, cl0, h0, hp0⟩ := hI.waiter f fl hf ha
+    obtain ⟨c0, cl0, h0, hk0, hp0⟩ := hI.waiter f fl hf ha
     by_cases hcc : c = c0
     · subst hcc
       rw [hc] at h0; injection h0 with h0; subst h0
-      exact ⟨c, cl', by simp [List.getElem?_set, hlt], hw f fl hp0 hf ha⟩
+      exact ⟨c, cl', by simp [List.getElem?_set, hlt], by rw [he]; exact hk0, hw f fl hp0 hf ha⟩
+    · exact ⟨c0, cl0, by simp only []; rw [List.getElem?_set_ne hcc]; exact h0, hk0, hp0⟩
+  · intro f fl hf hsp
+    obtain ⟨c0, cl0, h0, hp0⟩ := hI.unspawned f fl hf hsp
+    by_cases hcc : c = c0
+    · subst hcc
+      rw [hc] at h0; injection h0 with h0; subst h0
+      exact ⟨c, cl', by simp [List.getElem?_set, hlt], hu f fl hp0 hf hsp⟩
     · exact ⟨c0, cl0, by simp only []; rw [List.getElem?_set_ne hcc]; exact h0, hp0⟩
 
 /-- the caller moves without an observable event -/
@@ -225,7 +291,7 @@ theorem rel_updCaller_same {s : State κ} {o : OState κ} {c : Nat} {cl cl' : Ca
     (hc : s.callers[c]? = some cl) (he : cl'.entries = cl.entries) (hb : cl'.banned = cl.banned)
     (hp : ∀ p, PcRel cl.pc p → PcRel cl'.pc p) :
     Rel { s with callers := s.callers.set c cl' } o := by
-  refine ⟨by simp [hR.ncall], ?_, hR.flight, hR.known, hR.credit⟩
+  refine ⟨by simp [hR.ncall], ?_, hR.flight, hR.known, hR.credit, hR.canc, hR.strict⟩
   intro c' x hx
   rcases getElem?_set_cases _ _ _ _ _ hx with ⟨h1, h2⟩ | ⟨_, h2⟩
   · subst h1; subst h2
@@ -239,7 +305,7 @@ theorem rel_updCaller {s : State κ} {o : OState κ} {c : Nat} {cl cl' : Caller 
     (hp : PcRel cl'.pc ocl'.pc) :
     Rel { s with callers := s.callers.set c cl' } { o with callers := o.callers.set c ocl' } := by
   have hlt : c < s.callers.length := (List.getElem?_eq_some_iff.1 hc).1
-  refine ⟨by simp [hR.ncall], ?_, hR.flight, hR.known, hR.credit⟩
+  refine ⟨by simp [hR.ncall], ?_, hR.flight, hR.known, hR.credit, hR.canc, hR.strict⟩
   intro c' x hx
   rcases getElem?_set_cases _ _ _ _ _ hx with ⟨h1, h2⟩ | ⟨h1, h2⟩
   · subst h1; subst h2
@@ -260,7 +326,8 @@ theorem removeKey_callers (s : State κ) (k : κ) : (removeKey s k).1.callers = 
   · rfl
   · split <;> rfl
 
-theorem removeKey_refines {s : State κ} {o : OState κ} (k : κ) (hI : Inv s) (hR : Rel s o) :
+theorem removeKey_refines {s : State κ} {o : OState κ} (k : κ) (hI : Inv s) (hR : Rel s o)
+    (hj : s.strict = true → ∀ g, s.cache k = some g → justified o k g = true) :
     ∃ o', Obs.run o (removeKey s k).2 = some o' ∧ Inv (removeKey s k).1 ∧ Rel (removeKey s k).1 o' := by
   unfold removeKey
   cases hck : s.cache k with
@@ -268,6 +335,10 @@ theorem removeKey_refines {s : State κ} {o : OState κ} (k : κ) (hI : Inv s) (
   | some g =>
     obtain ⟨fl, hg, hkey, hrem⟩ := hI.cached k g hck
     have hlt : g < s.flights.length := (List.getElem?_eq_some_iff.1 hg).1
+    have hguard : ¬ (o.strict = true ∧ justified o k g = false) := by
+      intro hh
+      have := hj (by rw [← hR.strict]; exact hh.1) g hck
+      rw [this] at hh; cases hh.2
     simp only [hg]
     -- the specification's step
     have hof : o.flights g = if fl.ans = none then none else some ⟨k, fl.ans, false⟩ := by
@@ -276,7 +347,7 @@ theorem removeKey_refines {s : State κ} {o : OState κ} (k : κ) (hI : Inv s) (
       flmono_set _ g fl _ hg rfl (fun _ => rfl) (fun _ => rfl)
     have hInv : Inv { s with cache := fun k' => if k' = k then none else s.cache k',
                              flights := s.flights.set g { fl with removed := true } } := by
-      refine ⟨?_, ?_, ?_, ?_, ?_, ?_⟩
+      refine ⟨?_, ?_, ?_, ?_, ?_, ?_, ?_⟩
       · intro k' f hc'
         simp only [] at hc'
         by_cases hk' : k' = k
@@ -316,6 +387,11 @@ theorem removeKey_refines {s : State κ} {o : OState κ} (k : κ) (hI : Inv s) (
         rcases getElem?_set_cases _ _ _ _ _ hx with ⟨h1, h2⟩ | ⟨_, h2⟩
         · subst h1; subst h2; exact hI.waiter g fl hg ha
         · exact hI.waiter f x h2 ha
+      · intro f x hx ha
+        simp only [] at hx
+        rcases getElem?_set_cases _ _ _ _ _ hx with ⟨h1, h2⟩ | ⟨_, h2⟩
+        · subst h1; subst h2; exact hI.unspawned g fl hg ha
+        · exact hI.unspawned f x h2 ha
     have hcredit : ∀ k', (if k' = k then o.credit k + 1 else o.credit k') =
         unann (s.flights.set g { fl with removed := true }) k' + (if (if k' = k then none else s.cache k') = none then 1 else 0) := by
       intro k'
@@ -335,8 +411,8 @@ theorem removeKey_refines {s : State κ} {o : OState κ} (k : κ) (hI : Inv s) (
     by_cases hans : fl.ans = none
     · -- removed before its PREPARE reached the server
       have ho : o.flights g = none := by rw [hof]; simp [hans]
-      refine ⟨_, by simp only [Obs.run, Obs.step, ho]; rfl, hInv, ?_⟩
-      refine ⟨hR.ncall, hR.call, ?_, ?_, hcredit⟩
+      refine ⟨_, by simp only [Obs.run, Obs.step]; rw [if_neg hguard]; simp only [ho]; rfl, hInv, ?_⟩
+      refine ⟨hR.ncall, hR.call, ?_, ?_, hcredit, hR.canc, hR.strict⟩
       · exact hflight _ (by rw [hans])
       · intro f hf
         simp only [] at hf ⊢
@@ -345,8 +421,8 @@ theorem removeKey_refines {s : State κ} {o : OState κ} (k : κ) (hI : Inv s) (
         · simp only [hfg, if_false] at hf
           exact List.mem_cons_of_mem _ (hR.known f hf)
     · have ho : o.flights g = some ⟨k, fl.ans, false⟩ := by rw [hof]; simp [hans]
-      refine ⟨_, by simp only [Obs.run, Obs.step, ho, and_self, if_true]; rfl, hInv, ?_⟩
-      refine ⟨hR.ncall, hR.call, ?_, ?_, hcredit⟩
+      refine ⟨_, by simp only [Obs.run, Obs.step]; rw [if_neg hguard]; simp only [ho, and_self, if_true]; rfl, hInv, ?_⟩
+      refine ⟨hR.ncall, hR.call, ?_, ?_, hcredit, hR.canc, hR.strict⟩
       · exact hflight _ rfl
       · intro f hf
         simp only [] at hf ⊢
@@ -359,12 +435,13 @@ theorem removeKey_refines {s : State κ} {o : OState κ} (k : κ) (hI : Inv s) (
 
 theorem setFlight_same {s : State κ} {o : OState κ} (f : Nat) (fl fl' : Flight κ) (hI : Inv s) (hR : Rel s o)
     (hf : s.flights[f]? = some fl) (hk : fl'.key = fl.key) (ha : fl'.ans = fl.ans) (hr : fl'.removed = fl.removed)
-    (hd1 : fl'.done = true → fl'.ans ≠ none) (hd2 : fl'.done = true → fl'.ans = some none → fl'.removed = true) :
+    (hd1 : fl'.done = true → fl'.ans ≠ none) (hd2 : fl'.done = true → fl'.ans = some none → fl'.removed = true)
+    (hsp : fl'.spawned = false → fl.spawned = false) :
     Inv { s with flights := s.flights.set f fl' } ∧ Rel { s with flights := s.flights.set f fl' } o := by
   have hlt : f < s.flights.length := (List.getElem?_eq_some_iff.1 hf).1
   have hmono : FlMono s.flights (s.flights.set f fl') :=
     flmono_set _ f fl fl' hf hk (fun _ => ha) (fun h => by rw [hr]; exact h)
-  refine ⟨⟨?_, ?_, ?_, ?_, ?_, ?_⟩, ⟨hR.ncall, hR.call, ?_, hR.known, ?_⟩⟩
+  refine ⟨⟨?_, ?_, ?_, ?_, ?_, ?_, ?_⟩, ⟨hR.ncall, hR.call, ?_, hR.known, ?_, hR.canc, hR.strict⟩⟩
   · intro k g hc
     obtain ⟨x, h1, h2, h3⟩ := hI.cached k g hc
     by_cases hfg : f = g
@@ -394,8 +471,15 @@ theorem setFlight_same {s : State κ} {o : OState κ} (f : Nat) (fl fl' : Flight
     simp only [] at hx
     rcases getElem?_set_cases _ _ _ _ _ hx with ⟨h1, h2⟩ | ⟨_, h2⟩
     · subst h1; subst h2
+      rw [hk]
       exact hI.waiter f fl hf (ha ▸ hax)
     · exact hI.waiter g x h2 hax
+  · intro g x hx hax
+    simp only [] at hx
+    rcases getElem?_set_cases _ _ _ _ _ hx with ⟨h1, h2⟩ | ⟨_, h2⟩
+    · subst h1; subst h2
+      exact hI.unspawned f fl hf (hsp hax)
+    · exact hI.unspawned g x h2 hax
   · intro g
     rw [hR.flight g]
     unfold absFlight
@@ -412,11 +496,140 @@ theorem setDone_refines {s : State κ} {o : OState κ} (f : Nat) (fl : Flight κ
     Inv (setDone s f) ∧ Rel (setDone s f) o := by
   unfold setDone
   simp only [hf]
-  exact setFlight_same f fl { fl with done := true } hI hR hf rfl rfl rfl (fun _ => ha) (fun _ => hr)
+  exact setFlight_same f fl { fl with done := true } hI hR hf rfl rfl rfl (fun _ => ha) (fun _ => hr) id
+
+/-! ### a cache that never purges for capacity: only finished flights are ever out of the cache -/
+
+def SInv (s : State κ) : Prop :=
+  s.strict = true → ∀ (f : Nat) (fl : Flight κ), s.flights[f]? = some fl → fl.removed = true → fl.done = true
+
+omit [DecidableEq κ] in
+theorem sinv_same {s s' : State κ} (hS : SInv s) (hf : s'.flights = s.flights) (hs : s'.strict = s.strict) : SInv s' := by
+  intro h f fl hx
+  rw [hf] at hx
+  exact hS (hs ▸ h) f fl hx
+
+omit [DecidableEq κ] in
+theorem sinv_set {s s' : State κ} (hS : SInv s) (f : Nat) (fl fl' : Flight κ) (hf : s.flights[f]? = some fl)
+    (hr : fl'.removed = true → fl'.done = true ∨ fl.removed = true) (hd : fl.done = true → fl'.done = true)
+    (hfl : s'.flights = s.flights.set f fl') (hs : s'.strict = s.strict) : SInv s' := by
+  intro h g x hx hxr
+  rw [hfl] at hx
+  rcases getElem?_set_cases _ _ _ _ _ hx with ⟨h1, h2⟩ | ⟨_, h2⟩
+  · subst h1; subst h2
+    rcases hr hxr with h3 | h3
+    · exact h3
+    · exact hd (hS (hs ▸ h) f fl hf h3)
+  · exact hS (hs ▸ h) g x h2 hxr
+
+omit [DecidableEq κ] in
+theorem sinv_append {s s' : State κ} (hS : SInv s) (x : Flight κ) (hx : x.removed = false)
+    (hfl : s'.flights = s.flights ++ [x]) (hs : s'.strict = s.strict) : SInv s' := by
+  intro h g y hy hyr
+  rw [hfl] at hy
+  rcases getElem?_snoc_cases _ _ _ _ hy with ⟨_, h2⟩ | ⟨_, h2⟩
+  · exact hS (hs ▸ h) g y h2 hyr
+  · subst h2; rw [hx] at hyr; cases hyr
+
+theorem removeKey_strict (s : State κ) (k : κ) : (removeKey s k).1.strict = s.strict := by
+  unfold removeKey
+  split
+  · rfl
+  · split <;> rfl
+
+/-- removing the entry of a finished flight -/
+theorem sinv_removeKey {s : State κ} (hS : SInv s) (k : κ)
+    (hd : ∀ g fl, s.cache k = some g → s.flights[g]? = some fl → fl.done = true) : SInv (removeKey s k).1 := by
+  cases hck : s.cache k with
+  | none => simp only [removeKey, hck]; exact hS
+  | some g =>
+    cases hg : s.flights[g]? with
+    | none => simp only [removeKey, hck, hg]; exact hS
+    | some fl =>
+      simp only [removeKey, hck, hg]
+      exact sinv_set hS g fl { fl with removed := true } hg (fun _ => Or.inl (hd g fl hck hg)) id rfl rfl
+
+omit [DecidableEq κ] in
+theorem setDone_strict (s : State κ) (f : Nat) : (setDone s f).strict = s.strict := by
+  unfold setDone
+  split <;> rfl
+
+omit [DecidableEq κ] in
+theorem sinv_setDone {s : State κ} (hS : SInv s) (f : Nat) : SInv (setDone s f) := by
+  unfold setDone
+  cases hf : s.flights[f]? with
+  | none => exact hS
+  | some fl =>
+    simp only []
+    exact sinv_set hS f fl { fl with done := true } hf (fun _ => Or.inl rfl) (fun _ => rfl) rfl rfl
+
+/-- the failing completion: the key is removed, then the flight is done — with a cache that never purges, the entry
+    removed is the failing flight's own -/
+theorem sinv_complete_fail {s : State κ} (hI : Inv s) (hS : SInv s) (f : Nat) (fl : Flight κ) (hf : s.flights[f]? = some fl)
+    (hd : fl.done = false) : SInv (setDone (removeKey s fl.key).1 f) := by
+  intro hst
+  have hst' : s.strict = true := by rw [setDone_strict, removeKey_strict] at hst; exact hst
+  have hnr : fl.removed = false := by
+    cases hr : fl.removed with
+    | false => rfl
+    | true => have := hS hst' f fl hf hr; rw [hd] at this; cases this
+  have hc := hI.uncached f fl hf hnr
+  have hlt : f < s.flights.length := (List.getElem?_eq_some_iff.1 hf).1
+  have h1 : (removeKey s fl.key).1.flights = s.flights.set f { fl with removed := true } := by
+    unfold removeKey; simp only [hc, hf]
+  have h2 : (removeKey s fl.key).1.flights[f]? = some { fl with removed := true } := by rw [h1]; simp [hlt]
+  have h3 : (setDone (removeKey s fl.key).1 f).flights = (s.flights.set f { fl with removed := true }).set f { fl with removed := true, done := true } := by
+    unfold setDone; simp only [h2]; rw [h1]
+  intro g x hx hxr
+  rw [h3] at hx
+  rcases getElem?_set_cases _ _ _ _ _ hx with ⟨_, h5⟩ | ⟨h4, h5⟩
+  · subst h5; rfl
+  · rw [List.getElem?_set_ne h4] at h5
+    exact hS hst' g x h5 hxr
+
+theorem sinv_evictIfMatch {s : State κ} (hS : SInv s) (k : κ) (id : Id) : SInv (evictIfMatch s k id).1 := by
+  cases hck : s.cache k with
+  | none => simp only [evictIfMatch, hck]; exact hS
+  | some g =>
+    cases hg : s.flights[g]? with
+    | none => simp only [evictIfMatch, hck, hg]; exact hS
+    | some fl =>
+      by_cases hd : fl.done = true
+      · cases ha : fl.ans with
+        | none => simp only [evictIfMatch, hck, hg, hd, ha, if_true]; exact hS
+        | some r =>
+          cases r with
+          | none => simp only [evictIfMatch, hck, hg, hd, ha, if_true]; exact hS
+          | some p =>
+            obtain ⟨id', n⟩ := p
+            by_cases hid : id = id'
+            · simp only [evictIfMatch, hck, hg, hd, ha, hid, if_true]
+              refine sinv_removeKey hS k ?_
+              intro g' fl' h1 h2
+              rw [hck] at h1; injection h1 with h1; subst h1
+              rw [hg] at h2; injection h2 with h2; subst h2
+              exact hd
+            · simp only [evictIfMatch, hck, hg, hd, ha, hid, if_true, if_false]; exact hS
+      · simp only [evictIfMatch, hck, hg, hd]; exact hS
+
+theorem evictIfMatch_strict (s : State κ) (k : κ) (id : Id) : (evictIfMatch s k id).1.strict = s.strict := by
+  unfold evictIfMatch
+  split
+  · rfl
+  · split
+    · rfl
+    · split
+      · split
+        · split
+          · exact removeKey_strict s k
+          · rfl
+        · rfl
+      · rfl
 
 /-! ### evictPreparedID -/
 
-theorem evictIfMatch_refines {s : State κ} {o : OState κ} (k : κ) (id : Id) (hI : Inv s) (hR : Rel s o) :
+theorem evictIfMatch_refines {s : State κ} {o : OState κ} (k : κ) (id : Id) (hI : Inv s) (hR : Rel s o)
+    (hw : o.callers.any (fun cl => decide (cl.pc = .awaiting (.unprep id)) && hasKey cl.entries k) = true) :
     ∃ o', Obs.run o (evictIfMatch s k id).2 = some o' ∧ Inv (evictIfMatch s k id).1 ∧ Rel (evictIfMatch s k id).1 o' ∧
       (evictIfMatch s k id).1.callers = s.callers := by
   unfold evictIfMatch
@@ -439,7 +652,14 @@ theorem evictIfMatch_refines {s : State κ} {o : OState κ} (k : κ) (id : Id) (
           simp only []
           by_cases hid : id = id'
           · simp only [hid, if_true]
-            obtain ⟨o', h1, h2, h3⟩ := removeKey_refines k hI hR
+            have hj : s.strict = true → ∀ g', s.cache k = some g' → justified o k g' = true := by
+              intro _ g' hg'
+              rw [hck] at hg'; injection hg' with hg'; subst hg'
+              unfold justified
+              rw [hR.flight g, absFlight_ans hg (by rw [ha]; simp), ha]
+              simp only []
+              rw [← hid]; exact hw
+            obtain ⟨o', h1, h2, h3⟩ := removeKey_refines k hI hR hj
             exact ⟨o', h1, h2, h3, removeKey_callers s k⟩
           · rw [if_neg hid]
             exact ⟨o, rfl, hI, hR, rfl⟩
@@ -481,7 +701,7 @@ theorem call_refines {s : State κ} {o : OState κ} (b : Bool) (es : List (κ ×
       Rel { s with callers := s.callers ++ [{ batch := b, entries := es, got := [], pc := .start, banned := isRemoved s }] } o' := by
   refine ⟨{ o with callers := o.callers ++ [{ entries := es, pc := .active, banned := removedNow o }] }, ?_, ?_, ?_⟩
   · simp [Obs.run, Obs.step, hR.ncall, hes]
-  · refine ⟨hI.cached, hI.uncached, hI.doneAns, hI.failRem, ?_, ?_⟩
+  · refine ⟨hI.cached, hI.uncached, hI.doneAns, hI.failRem, ?_, ?_, ?_⟩
     · intro c cl hc
       rcases getElem?_snoc_cases _ _ _ _ hc with ⟨_, h2⟩ | ⟨_, h2⟩
       · exact hI.callers c cl h2
@@ -493,10 +713,14 @@ theorem call_refines {s : State κ} {o : OState κ} (b : Bool) (es : List (κ ×
         | nil => exact absurd rfl hes
         | cons _ _ => simp
     · intro f fl hf ha
-      obtain ⟨c0, cl0, h0, hp0⟩ := hI.waiter f fl hf ha
+      obtain ⟨c0, cl0, h0, hk0, hp0⟩ := hI.waiter f fl hf ha
+      have hlt : c0 < s.callers.length := (List.getElem?_eq_some_iff.1 h0).1
+      exact ⟨c0, cl0, by simp only []; rw [List.getElem?_append_left hlt]; exact h0, hk0, hp0⟩
+    · intro f fl hf ha
+      obtain ⟨c0, cl0, h0, hp0⟩ := hI.unspawned f fl hf ha
       have hlt : c0 < s.callers.length := (List.getElem?_eq_some_iff.1 h0).1
       exact ⟨c0, cl0, by simp only []; rw [List.getElem?_append_left hlt]; exact h0, hp0⟩
-  · refine ⟨by simp [hR.ncall], ?_, hR.flight, hR.known, hR.credit⟩
+  · refine ⟨by simp [hR.ncall], ?_, hR.flight, hR.known, hR.credit, hR.canc, hR.strict⟩
     intro c cl hc
     rcases getElem?_snoc_cases _ _ _ _ hc with ⟨h1, h2⟩ | ⟨h1, h2⟩
     · obtain ⟨ocl, g1, g2⟩ := hR.call c cl h2
@@ -524,8 +748,9 @@ theorem lookup_hit_refines {s : State κ} {o : OState κ} (c : Nat) (cl : Caller
       have := hok.ban f hb
       unfold isRemovedL at this
       simp [hf, hr] at this
-  refine ⟨inv_updCaller hI hc ⟨hok.ne, hok.ban, ?_⟩ ?_, rel_updCaller_same hR hc rfl rfl ?_⟩
+  refine ⟨inv_updCaller hI hc ⟨hok.ne, hok.ban, ?_⟩ rfl ?_ ?_, rel_updCaller_same hR hc rfl rfl ?_⟩
   · exact ⟨hp.1, hp.2, fl, e, hf, he, hk, hban⟩
+  · intro f' fl' hw; exact absurd hw (not_owns_start hpc)
   · intro f' fl' hw; rw [hpc] at hw; cases hw
   · intro p hp'; rw [hpc] at hp'; exact hp'
 
@@ -538,17 +763,17 @@ theorem unann_append (fls : List (Flight κ)) (x : Flight κ) (k : κ) :
 theorem lookup_miss_refines {s : State κ} {o : OState κ} (c : Nat) (cl : Caller κ) (e : κ × Nat) (hI : Inv s) (hR : Rel s o)
     (hc : s.callers[c]? = some cl) (hpc : cl.pc = .start) (he : cl.entries[cl.got.length]? = some e)
     (hck : s.cache e.1 = none) :
-    Inv { cache := fun k' => if k' = e.1 then some s.flights.length else s.cache k',
-          flights := s.flights ++ [{ key := e.1, ans := none, done := false, removed := false }],
-          callers := s.callers.set c { cl with pc := .waiting s.flights.length } } ∧
-    Rel { cache := fun k' => if k' = e.1 then some s.flights.length else s.cache k',
-          flights := s.flights ++ [{ key := e.1, ans := none, done := false, removed := false }],
-          callers := s.callers.set c { cl with pc := .waiting s.flights.length } } o := by
+    Inv { s with cache := fun k' => if k' = e.1 then some s.flights.length else s.cache k',
+                 flights := s.flights ++ [{ key := e.1, ans := none, done := false, removed := false, spawned := false }],
+                 callers := s.callers.set c { cl with pc := .won s.flights.length } } ∧
+    Rel { s with cache := fun k' => if k' = e.1 then some s.flights.length else s.cache k',
+                 flights := s.flights ++ [{ key := e.1, ans := none, done := false, removed := false, spawned := false }],
+                 callers := s.callers.set c { cl with pc := .won s.flights.length } } o := by
   have hok := hI.callers c cl hc
   have hp := hok.pcs
   rw [hpc] at hp
   have hclt : c < s.callers.length := (List.getElem?_eq_some_iff.1 hc).1
-  have hmono := flmono_append s.flights { key := e.1, ans := none, done := false, removed := false }
+  have hmono := flmono_append s.flights { key := e.1, ans := none, done := false, removed := false, spawned := false }
   have hban : cl.banned s.flights.length = false := by
     cases hb : cl.banned s.flights.length with
     | false => rfl
@@ -557,7 +782,7 @@ theorem lookup_miss_refines {s : State κ} {o : OState κ} (c : Nat) (cl : Calle
       unfold isRemovedL at this
       simp at this
   constructor
-  · refine ⟨?_, ?_, ?_, ?_, ?_, ?_⟩
+  · refine ⟨?_, ?_, ?_, ?_, ?_, ?_, ?_⟩
     · intro k f hcf
       simp only [] at hcf ⊢
       by_cases hk : k = e.1
@@ -596,16 +821,27 @@ theorem lookup_miss_refines {s : State κ} {o : OState κ} (c : Nat) (cl : Calle
       · exact callerOK_mono hmono x (hI.callers c' x h2)
     · intro f x hx hax
       simp only [] at hx ⊢
+      rcases getElem?_snoc_cases _ _ _ _ hx with ⟨_, h2⟩ | ⟨h1, h2⟩
+      · obtain ⟨c0, cl0, h0, hk0, hp0⟩ := hI.waiter f x h2 hax
+        have hne : c ≠ c0 := by
+          intro h; subst h
+          rw [hc] at h0; injection h0 with h0; subst h0
+          exact not_owns_start hpc hp0
+        exact ⟨c0, cl0, by rw [List.getElem?_set_ne hne]; exact h0, hk0, hp0⟩
+      · subst h1; subst h2
+        exact ⟨c, { cl with pc := .won s.flights.length }, by simp [hclt], hasKey_of_getElem? he, Or.inl rfl⟩
+    · intro f x hx hax
+      simp only [] at hx ⊢
       rcases getElem?_snoc_cases _ _ _ _ hx with ⟨_, h2⟩ | ⟨h1, _⟩
-      · obtain ⟨c0, cl0, h0, hp0⟩ := hI.waiter f x h2 hax
+      · obtain ⟨c0, cl0, h0, hp0⟩ := hI.unspawned f x h2 hax
         have hne : c ≠ c0 := by
           intro h; subst h
           rw [hc] at h0; injection h0 with h0; subst h0
           rw [hpc] at hp0; cases hp0
         exact ⟨c0, cl0, by rw [List.getElem?_set_ne hne]; exact h0, hp0⟩
       · subst h1
-        exact ⟨c, { cl with pc := .waiting s.flights.length }, by simp [hclt], rfl⟩
-  · refine ⟨by simp [hR.ncall], ?_, ?_, hR.known, ?_⟩
+        exact ⟨c, { cl with pc := .won s.flights.length }, by simp [hclt], rfl⟩
+  · refine ⟨by simp [hR.ncall], ?_, ?_, hR.known, ?_, hR.canc, hR.strict⟩
     · intro c' x hx
       simp only [] at hx
       rcases getElem?_set_cases _ _ _ _ _ hx with ⟨h1, h2⟩ | ⟨_, h2⟩
@@ -633,19 +869,6 @@ theorem lookup_miss_refines {s : State κ} {o : OState κ} (c : Nat) (cl : Calle
       · have : ¬ e.1 = k := fun h => hk h.symm
         simp [hk, this]
 
-theorem mem_of_getElem? {α : Type} {l : List α} {i : Nat} {a : α} (h : l[i]? = some a) : a ∈ l := by
-  obtain ⟨hlt, h2⟩ := List.getElem?_eq_some_iff.1 h
-  exact h2 ▸ List.getElem_mem hlt
-
-theorem hasKey_of_getElem? {es : List (κ × Nat)} {i : Nat} {e : κ × Nat} (h : es[i]? = some e) : hasKey es e.1 = true := by
-  unfold hasKey
-  exact List.any_eq_true.2 ⟨e, mem_of_getElem? h, by simp⟩
-
-theorem absFlight_ans {fls : List (Flight κ)} {f : Nat} {fl : Flight κ} (hf : fls[f]? = some fl) (ha : fl.ans ≠ none) :
-    absFlight fls f = some ⟨fl.key, fl.ans, fl.removed⟩ := by
-  unfold absFlight
-  simp [hf, ha]
-
 theorem srvPrepare_refines {s : State κ} {o : OState κ} (f : Nat) (fl : Flight κ) (r : PAns) (hI : Inv s) (hR : Rel s o)
     (hf : s.flights[f]? = some fl) (ha : fl.ans = none) :
     ∃ o', Obs.run o [.prep f fl.key r] = some o' ∧
@@ -659,21 +882,18 @@ theorem srvPrepare_refines {s : State κ} {o : OState κ} (f : Nat) (fl : Flight
     unfold unann
     exact List.countP_pos_iff.2 ⟨fl, mem_of_getElem? hf, by simp [ha]⟩
   have hcr : 0 < o.credit fl.key := by rw [hR.credit]; omega
-  have hany : o.callers.any (fun cl => cl.pc.live && hasKey cl.entries fl.key) = true := by
-    obtain ⟨c0, cl0, h0, hp0⟩ := hI.waiter f fl hf ha
-    have hok := hI.callers c0 cl0 h0
-    have hp := hok.pcs
-    rw [hp0] at hp
-    obtain ⟨_, _, fl', e, g1, g2, g3, _⟩ := hp
-    rw [hf] at g1; injection g1 with g1; subst g1
+  have hany : o.callers.any (fun cl => (cl.pc.live || cl.pc.gaveUp) && hasKey cl.entries fl.key) = true := by
+    obtain ⟨c0, cl0, h0, hk0, hp0⟩ := hI.waiter f fl hf ha
     obtain ⟨ocl, q1, q2, _, q4⟩ := hR.call c0 cl0 h0
-    rw [hp0] at q4
     refine List.any_eq_true.2 ⟨ocl, mem_of_getElem? q1, ?_⟩
-    have : hasKey ocl.entries fl.key = true := by rw [q2, g3]; exact hasKey_of_getElem? g2
-    simp [this]
-    exact q4
+    have : hasKey ocl.entries fl.key = true := by rw [q2]; exact hk0
+    rw [this, Bool.and_true, Bool.or_eq_true]
+    rcases hp0 with hp0 | hp0 | hp0 <;> rw [hp0] at q4
+    · exact Or.inl q4
+    · exact Or.inl q4
+    · exact Or.inr q4
   have hInv : Inv { s with flights := s.flights.set f { fl with ans := some r } } := by
-    refine ⟨?_, ?_, ?_, ?_, ?_, ?_⟩
+    refine ⟨?_, ?_, ?_, ?_, ?_, ?_, ?_⟩
     · intro k g hc
       obtain ⟨x, h1, h2, h3⟩ := hI.cached k g hc
       by_cases hfg : f = g
@@ -705,6 +925,11 @@ theorem srvPrepare_refines {s : State κ} {o : OState κ} (f : Nat) (fl : Flight
       rcases getElem?_set_cases _ _ _ _ _ hx with ⟨_, h2⟩ | ⟨_, h2⟩
       · subst h2; simp at hax
       · exact hI.waiter g x h2 hax
+    · intro g x hx hax
+      simp only [] at hx
+      rcases getElem?_set_cases _ _ _ _ _ hx with ⟨h1, h2⟩ | ⟨_, h2⟩
+      · subst h1; subst h2; exact hI.unspawned f fl hf hax
+      · exact hI.unspawned g x h2 hax
   have hcredit : ∀ k', (if k' = fl.key then o.credit fl.key - 1 else o.credit k') =
       unann (s.flights.set f { fl with ans := some r }) k' + (if s.cache k' = none then 1 else 0) := by
     intro k'
@@ -732,11 +957,11 @@ theorem srvPrepare_refines {s : State κ} {o : OState κ} (f : Nat) (fl : Flight
     · have : f ≠ g := fun e => hg e.symm
       simp only [hg, if_false, List.getElem?_set_ne this]
       exact hR.flight g
-  have hcond : 0 < o.credit fl.key ∧ o.callers.any (fun cl => cl.pc.live && hasKey cl.entries fl.key) = true := ⟨hcr, hany⟩
+  have hcond : 0 < o.credit fl.key ∧ o.callers.any (fun cl => (cl.pc.live || cl.pc.gaveUp) && hasKey cl.entries fl.key) = true := ⟨hcr, hany⟩
   by_cases hrem : fl.removed = false
   · have ho : o.flights f = none := by rw [hR.flight f]; unfold absFlight; simp [hf, ha, hrem]
     refine ⟨_, by simp only [Obs.run, Obs.step]; rw [if_pos hcond]; simp only [ho]; rfl, hInv, ?_⟩
-    refine ⟨hR.ncall, hR.call, ?_, ?_, hcredit⟩
+    refine ⟨hR.ncall, hR.call, ?_, ?_, hcredit, hR.canc, hR.strict⟩
     · intro g; rw [← hflight g, hrem]
     · intro g hg
       simp only [] at hg ⊢
@@ -747,7 +972,7 @@ theorem srvPrepare_refines {s : State κ} {o : OState κ} (f : Nat) (fl : Flight
   · have hrem : fl.removed = true := by cases h : fl.removed <;> simp_all
     have ho : o.flights f = some ⟨fl.key, none, true⟩ := by rw [hR.flight f]; unfold absFlight; simp [hf, ha, hrem]
     refine ⟨_, by simp only [Obs.run, Obs.step]; rw [if_pos hcond]; simp only [ho, and_self, if_true]; rfl, hInv, ?_⟩
-    refine ⟨hR.ncall, hR.call, ?_, ?_, hcredit⟩
+    refine ⟨hR.ncall, hR.call, ?_, ?_, hcredit, hR.canc, hR.strict⟩
     · intro g; rw [← hflight g, hrem]
     · intro g hg
       simp only [] at hg ⊢
@@ -802,10 +1027,21 @@ theorem complete_ok_refines {s : State κ} {o : OState κ} (f : Nat) (fl : Fligh
   setDone_refines f fl hI hR hf (by rw [ha]; simp) (by rw [ha]; intro h; cases h)
 
 theorem complete_fail_refines {s : State κ} {o : OState κ} (f : Nat) (fl : Flight κ) (hI : Inv s) (hR : Rel s o)
+    (hS : SInv s) (hd : fl.done = false)
     (hf : s.flights[f]? = some fl) (ha : fl.ans = some none) :
     ∃ o', Obs.run o (removeKey s fl.key).2 = some o' ∧ Inv (setDone (removeKey s fl.key).1 f) ∧
       Rel (setDone (removeKey s fl.key).1 f) o' := by
-  obtain ⟨o', h1, h2, h3⟩ := removeKey_refines fl.key hI hR
+  have hj : s.strict = true → ∀ g, s.cache fl.key = some g → justified o fl.key g = true := by
+    intro hst g hg
+    have hnr : fl.removed = false := by
+      cases hr : fl.removed with
+      | false => rfl
+      | true => have := hS hst f fl hf hr; rw [hd] at this; cases this
+    have hc := hI.uncached f fl hf hnr
+    rw [hc] at hg; injection hg with hg; subst hg
+    unfold justified
+    rw [hR.flight f, absFlight_ans hf (by rw [ha]; simp), ha]
+  obtain ⟨o', h1, h2, h3⟩ := removeKey_refines fl.key hI hR hj
   obtain ⟨fl1, g1, g2, g3⟩ := removeKey_marks f fl hI hf
   obtain ⟨q1, q2⟩ := setDone_refines f fl1 h2 h3 g1 (by rw [g2, ha]; simp) (fun _ => g3)
   exact ⟨o', h1, q1, q2⟩
@@ -841,11 +1077,12 @@ theorem observe_fail_refines {s : State κ} {o : OState κ} (c f : Nat) (cl : Ca
     rw [if_pos ⟨q4, by rw [q3]; exact hb⟩]
     simp only [ho, hkey, and_self, if_true]
     rfl
-  · refine inv_updCaller hI hc ⟨hok.ne, hok.ban, trivial⟩ ?_
-    intro f' fl' hw hf' ha'
-    rw [hpc] at hw; injection hw with hw; subst hw
-    rw [hf] at hf'; injection hf' with hf'; subst hf'
-    rw [ha] at ha'; cases ha'
+  · refine inv_updCaller hI hc ⟨hok.ne, hok.ban, trivial⟩ rfl ?_ ?_
+    · intro f' fl' hw hf' ha'
+      have := owns_waiting hpc hw; subst this
+      rw [hf] at hf'; injection hf' with hf'; subst hf'
+      rw [ha] at ha'; cases ha'
+    · intro f' fl' hw; rw [hpc] at hw; cases hw
   · exact rel_updCaller { ocl with pc := .returned } hR hc q2 q3 rfl
 
 theorem observe_count_refines {s : State κ} {o : OState κ} (c f : Nat) (cl : Caller κ) (fl : Flight κ) (e : κ × Nat)
@@ -873,11 +1110,12 @@ theorem observe_count_refines {s : State κ} {o : OState κ} (c f : Nat) (cl : C
   · simp only [Obs.run, Obs.step, q1]
     rw [if_pos ⟨q4, hmis⟩]
     rfl
-  · refine inv_updCaller hI hc ⟨hok.ne, hok.ban, trivial⟩ ?_
-    intro f' fl' hw hf' ha'
-    rw [hpc] at hw; injection hw with hw; subst hw
-    rw [hf] at hf'; injection hf' with hf'; subst hf'
-    rw [ha] at ha'; cases ha'
+  · refine inv_updCaller hI hc ⟨hok.ne, hok.ban, trivial⟩ rfl ?_ ?_
+    · intro f' fl' hw hf' ha'
+      have := owns_waiting hpc hw; subst this
+      rw [hf] at hf'; injection hf' with hf'; subst hf'
+      rw [ha] at ha'; cases ha'
+    · intro f' fl' hw; rw [hpc] at hw; cases hw
   · exact rel_updCaller { ocl with pc := .returned } hR hc q2 q3 rfl
 
 omit [DecidableEq κ] in
@@ -928,11 +1166,12 @@ theorem observe_exec_refines {s : State κ} {o : OState κ} (c f : Nat) (cl : Ca
   refine ⟨{ o with callers := o.callers.set c { ocl with pc := .awaiting a, banned := removedNow o } }, ?_, ?_, ?_⟩
   · simp only [Obs.run, Obs.step, q1]
     rw [if_pos ⟨q4, hoke⟩]
-  · refine inv_updCaller hI hc ⟨hok.ne, fun g hg => hg, trivial⟩ ?_
-    intro f' fl' hw hf' ha'
-    rw [hpc] at hw; injection hw with hw; subst hw
-    rw [hf] at hf'; injection hf' with hf'; subst hf'
-    rw [ha] at ha'; cases ha'
+  · refine inv_updCaller hI hc ⟨hok.ne, fun g hg => hg, trivial⟩ rfl ?_ ?_
+    · intro f' fl' hw hf' ha'
+      have := owns_waiting hpc hw; subst this
+      rw [hf] at hf'; injection hf' with hf'; subst hf'
+      rw [ha] at ha'; cases ha'
+    · intro f' fl' hw; rw [hpc] at hw; cases hw
   · exact rel_updCaller { ocl with pc := .awaiting a, banned := removedNow o } hR hc q2 (removedNow_eq hR) rfl
 
 theorem observe_more_refines {s : State κ} {o : OState κ} (c f : Nat) (cl : Caller κ) (fl : Flight κ) (e : κ × Nat) (id : Id)
@@ -944,14 +1183,15 @@ theorem observe_more_refines {s : State κ} {o : OState κ} (c f : Nat) (cl : Ca
   have hgot := observe_next_ok hI hc hpc hf he ha
   obtain ⟨h1, _, _, _⟩ := waiting_facts hI hc hpc hf he
   have hok := hI.callers c cl hc
-  refine ⟨inv_updCaller hI hc ⟨hok.ne, hok.ban, ?_⟩ ?_, rel_updCaller_same hR hc rfl rfl ?_⟩
+  refine ⟨inv_updCaller hI hc ⟨hok.ne, hok.ban, ?_⟩ rfl ?_ ?_, rel_updCaller_same hR hc rfl rfl ?_⟩
   · refine ⟨?_, hgot⟩
     simp at hlen ⊢
     omega
   · intro f' fl' hw hf' ha'
-    rw [hpc] at hw; injection hw with hw; subst hw
+    have := owns_waiting hpc hw; subst this
     rw [hf] at hf'; injection hf' with hf'; subst hf'
     rw [ha] at ha'; cases ha'
+  · intro f' fl' hw; rw [hpc] at hw; cases hw
   · intro p hp; rw [hpc] at hp; exact hp
 
 /-! ### the answer to the frame -/
@@ -969,9 +1209,42 @@ theorem finish_ret_refines {s : State κ} {o : OState κ} (c : Nat) (cl : Caller
   refine ⟨{ o with callers := o.callers.set c { ocl with pc := .returned } }, ?_, ?_, ?_⟩
   · rcases hao with ⟨h1, h2⟩ | ⟨h1, h2⟩ <;> subst h1 <;> subst h2 <;>
       (simp only [Obs.run, Obs.step, q1]; rw [if_pos q4']; rfl)
-  · refine inv_updCaller hI hc ⟨hok.ne, hok.ban, trivial⟩ ?_
-    intro f' fl' hw; rw [hpc] at hw; cases hw
+  · refine inv_updCaller hI hc ⟨hok.ne, hok.ban, trivial⟩ rfl ?_ ?_
+    · intro f' fl' hw; exact absurd hw (not_owns_answered hpc)
+    · intro f' fl' hw; rw [hpc] at hw; cases hw
   · exact rel_updCaller { ocl with pc := .returned } hR hc q2 q3 rfl
+
+theorem mem_zip_left {α β : Type} : ∀ (l1 : List α) (l2 : List β) (p : α × β), p ∈ l1.zip l2 → p.1 ∈ l1
+  | [], _, p, h => by simp at h
+  | _ :: _, [], p, h => by simp at h
+  | a :: l1, b :: l2, p, h => by
+    simp only [List.zip_cons_cons, List.mem_cons] at h
+    rcases h with h | h
+    · subst h; simp
+    · exact List.mem_cons_of_mem _ (mem_zip_left l1 l2 p h)
+
+/-- the key that an UNPREPARED answer makes the caller evict is the key of one of its own entries -/
+theorem unprepKey_hasKey (s : State κ) (cl : Caller κ) (id : Id) (k : κ) (h : unprepKey s cl id = some k) :
+    hasKey cl.entries k = true := by
+  unfold unprepKey at h
+  by_cases hb : cl.batch = true
+  · simp only [hb, if_true] at h
+    cases hfind : (cl.entries.zip cl.got).reverse.find? (fun e => idOf s e.2 = id) with
+    | none => simp [hfind] at h
+    | some p =>
+      simp only [hfind, Option.map_some, Option.some.injEq] at h
+      have hm : p ∈ (cl.entries.zip cl.got).reverse := List.mem_of_find?_eq_some hfind
+      have hm' : p ∈ cl.entries.zip cl.got := List.mem_reverse.1 hm
+      have := mem_zip_left _ _ p hm'
+      unfold hasKey
+      exact List.any_eq_true.2 ⟨p.1, this, by simp [h]⟩
+  · simp only [hb] at h
+    cases hes : cl.entries with
+    | nil => simp [hes] at h
+    | cons e es =>
+      simp [hes] at h
+      unfold hasKey
+      simp [h]
 
 theorem finish_unprep_refines {s : State κ} {o : OState κ} (c : Nat) (cl : Caller κ) (id : Id) (r : State κ × List (Ev κ))
     (hr : r = (match unprepKey s cl id with
@@ -983,18 +1256,26 @@ theorem finish_unprep_refines {s : State κ} {o : OState κ} (c : Nat) (cl : Cal
       Rel { r.1 with callers := r.1.callers.set c { cl with got := [], pc := .start } } o' := by
   have hstep : ∃ o', Obs.run o r.2 = some o' ∧ Inv r.1 ∧ Rel r.1 o' ∧ r.1.callers = s.callers := by
     rw [hr]
-    cases unprepKey s cl id with
+    cases huk : unprepKey s cl id with
     | none => exact ⟨o, rfl, hI, hR, rfl⟩
-    | some k => exact evictIfMatch_refines k id hI hR
+    | some k =>
+      refine evictIfMatch_refines k id hI hR ?_
+      obtain ⟨ocl, q1, q2, _, q4⟩ := hR.call c cl hc
+      rw [hpc] at q4
+      have q4' : ocl.pc = .awaiting (.unprep id) := q4
+      refine List.any_eq_true.2 ⟨ocl, mem_of_getElem? q1, ?_⟩
+      rw [q2, unprepKey_hasKey s cl id k huk, q4']
+      simp
   obtain ⟨o', h1, h2, h3, h4⟩ := hstep
   have hc' : r.1.callers[c]? = some cl := by rw [h4]; exact hc
   have hok := h2.callers c cl hc'
-  refine ⟨o', h1, inv_updCaller h2 hc' ⟨hok.ne, hok.ban, ?_⟩ ?_, rel_updCaller_same h3 hc' rfl rfl ?_⟩
+  refine ⟨o', h1, inv_updCaller h2 hc' ⟨hok.ne, hok.ban, ?_⟩ rfl ?_ ?_, rel_updCaller_same h3 hc' rfl rfl ?_⟩
   · refine ⟨?_, by simp [GotOK]⟩
     have := hok.ne
     cases hes : cl.entries with
     | nil => exact absurd hes this
     | cons _ _ => simp
+  · intro f' fl' hw; exact absurd hw (not_owns_answered hpc)
   · intro f' fl' hw; rw [hpc] at hw; cases hw
   · intro p hp
     rw [hpc] at hp
@@ -1002,10 +1283,134 @@ theorem finish_unprep_refines {s : State κ} {o : OState κ} (c : Nat) (cl : Cal
     subst hp'
     rfl
 
+/-! ### the publishing caller starts the flight's goroutine -/
+
+theorem spawn_refines {s : State κ} {o : OState κ} (c f : Nat) (cl : Caller κ) (fl : Flight κ) (hI : Inv s) (hR : Rel s o)
+    (hc : s.callers[c]? = some cl) (hpc : cl.pc = .won f) (hf : s.flights[f]? = some fl) :
+    Inv { s with flights := s.flights.set f { fl with spawned := true },
+                 callers := s.callers.set c { cl with pc := .waiting f } } ∧
+    Rel { s with flights := s.flights.set f { fl with spawned := true },
+                 callers := s.callers.set c { cl with pc := .waiting f } } o := by
+  have hlt : f < s.flights.length := (List.getElem?_eq_some_iff.1 hf).1
+  obtain ⟨hI1, hR1⟩ := setFlight_same f fl { fl with spawned := true } hI hR hf rfl rfl rfl
+    (fun hd => hI.doneAns f fl hf hd) (fun hd ha => hI.failRem f fl hf hd ha) (fun h => by cases h)
+  have hc1 : ({ s with flights := s.flights.set f { fl with spawned := true } } : State κ).callers[c]? = some cl := hc
+  have hok := hI1.callers c cl hc1
+  have hp := hok.pcs
+  rw [hpc] at hp
+  refine ⟨inv_updCaller hI1 hc1 ⟨hok.ne, hok.ban, hp⟩ rfl ?_ ?_, rel_updCaller_same hR1 hc1 rfl rfl ?_⟩
+  · intro f' fl' hw _ _
+    have := owns_won hpc hw; subst this
+    exact Or.inr (Or.inl rfl)
+  · intro f' fl' hw hf' hsp
+    rw [hpc] at hw; injection hw with hw; subst hw
+    simp only [] at hf'
+    rw [List.getElem?_set] at hf'
+    simp [hlt] at hf'
+    subst hf'; cases hsp
+  · intro p hp'; rw [hpc] at hp'; exact hp'
+
+/-! ### caller contexts -/
+
+theorem cancel_refines {s : State κ} {o : OState κ} (c : Nat) (hlt : c < s.callers.length) (hI : Inv s) (hR : Rel s o) :
+    ∃ o', Obs.run o [.cancel c] = some o' ∧
+      Inv { s with cancelled := fun c' => decide (c' = c) || s.cancelled c' } ∧
+      Rel { s with cancelled := fun c' => decide (c' = c) || s.cancelled c' } o' := by
+  refine ⟨{ o with cancelled := fun c' => decide (c' = c) || o.cancelled c' }, ?_, ?_, ?_⟩
+  · have : c < o.callers.length := by rw [hR.ncall]; exact hlt
+    simp [Obs.run, Obs.step, this]
+  · exact ⟨hI.cached, hI.uncached, hI.doneAns, hI.failRem, hI.callers, hI.waiter, hI.unspawned⟩
+  · exact ⟨hR.ncall, hR.call, hR.flight, hR.known, hR.credit, by simp only []; rw [hR.canc], hR.strict⟩
+
+omit [DecidableEq κ] in
+theorem live_running {pc : OPC} (h : pc.live = true) : pc.running = true := by
+  cases pc with
+  | active => rfl
+  | awaiting a => rfl
+  | returned => simp [OPC.live] at h
+  | abandoned l => simp [OPC.live] at h
+
+/-- `case <-ctx.Done(): return nil, ctx.Err()` while waiting for a flight, or while waiting for the answer to
+    the frame: the caller returns its context error; cache and flights are untouched -/
+theorem abandon_refines {s : State κ} {o : OState κ} (c : Nat) (cl : Caller κ) (hI : Inv s) (hR : Rel s o)
+    (hc : s.callers[c]? = some cl) (hcan : s.cancelled c = true)
+    (hpc : (∃ f, cl.pc = .waiting f) ∨ (∃ a, cl.pc = .answered a)) :
+    ∃ o', Obs.run o [.ret c .ctxErr] = some o' ∧
+      Inv { s with callers := s.callers.set c { cl with pc := .abandoned } } ∧
+      Rel { s with callers := s.callers.set c { cl with pc := .abandoned } } o' := by
+  have hok := hI.callers c cl hc
+  obtain ⟨ocl, q1, q2, q3, q4⟩ := hR.call c cl hc
+  have hrun : ocl.pc.running = true := by
+    rcases hpc with ⟨f, hpc⟩ | ⟨a, hpc⟩ <;> rw [hpc] at q4
+    · exact live_running q4
+    · have q4' : ocl.pc = .awaiting a := q4
+      rw [q4']; rfl
+  have hoc : o.cancelled c = true := by rw [hR.canc]; exact hcan
+  refine ⟨{ o with callers := o.callers.set c { ocl with pc := .abandoned ocl.pc.live } }, ?_, ?_, ?_⟩
+  · simp only [Obs.run, Obs.step, q1]
+    rw [if_pos ⟨hoc, hrun⟩]
+    rfl
+  · refine inv_updCaller hI hc ⟨hok.ne, hok.ban, trivial⟩ rfl ?_ ?_
+    · intro f' fl' _ _ _; exact Or.inr (Or.inr rfl)
+    · intro f' fl' hw
+      rcases hpc with ⟨f, hpc⟩ | ⟨a, hpc⟩ <;> (rw [hpc] at hw; cases hw)
+  · exact rel_updCaller { ocl with pc := .abandoned ocl.pc.live } hR hc q2 q3 rfl
+
+/-- the same in `Conn.exec` right after the frame was written: the caller returns its context error, the frame
+    is on its way -/
+theorem abandonLate_refines {s : State κ} {o : OState κ} (c f : Nat) (cl : Caller κ) (fl : Flight κ) (e : κ × Nat) (id : Id)
+    (hI : Inv s) (hR : Rel s o) (hc : s.callers[c]? = some cl) (hcan : s.cancelled c = true) (hpc : cl.pc = .waiting f)
+    (hf : s.flights[f]? = some fl) (he : cl.entries[cl.got.length]? = some e)
+    (ha : fl.ans = some (some (id, e.2))) (hlen : (cl.got ++ [f]).length = cl.entries.length) :
+    ∃ o', Obs.run o [.ret c .ctxErr] = some o' ∧
+      Inv { s with callers := s.callers.set c { cl with got := cl.got ++ [f], pc := .lagging } } ∧
+      Rel { s with callers := s.callers.set c { cl with got := cl.got ++ [f], pc := .lagging } } o' := by
+  have hgot := observe_next_ok hI hc hpc hf he ha
+  have hok := hI.callers c cl hc
+  obtain ⟨ocl, q1, q2, q3, q4⟩ := hR.call c cl hc
+  rw [hpc] at q4
+  have q4' : ocl.pc.live = true := q4
+  have hoc : o.cancelled c = true := by rw [hR.canc]; exact hcan
+  refine ⟨{ o with callers := o.callers.set c { ocl with pc := .abandoned true } }, ?_, ?_, ?_⟩
+  · simp only [Obs.run, Obs.step, q1]
+    rw [if_pos ⟨hoc, live_running q4'⟩]
+    simp only [setPc, q4']
+  · refine inv_updCaller hI hc ⟨hok.ne, hok.ban, ?_⟩ rfl ?_ ?_
+    · exact ⟨hlen, hgot⟩
+    · intro f' fl' hw hf' ha'
+      have := owns_waiting hpc hw; subst this
+      rw [hf] at hf'; injection hf' with hf'; subst hf'
+      rw [ha] at ha'; cases ha'
+    · intro f' fl' hw; rw [hpc] at hw; cases hw
+  · exact rel_updCaller { ocl with pc := .abandoned true } hR hc q2 q3 rfl
+
+/-- the server receives the frame of a caller that has already returned its context error -/
+theorem srvLate_refines {s : State κ} {o : OState κ} (c : Nat) (cl : Caller κ) (a : XAns)
+    (hI : Inv s) (hR : Rel s o) (hc : s.callers[c]? = some cl) (hpc : cl.pc = .lagging) :
+    ∃ o', Obs.run o [.exec c (cl.got.map (idOf s)) a] = some o' ∧
+      Inv { s with callers := s.callers.set c { cl with pc := .abandoned, banned := isRemoved s } } ∧
+      Rel { s with callers := s.callers.set c { cl with pc := .abandoned, banned := isRemoved s } } o' := by
+  have hok := hI.callers c cl hc
+  have hp := hok.pcs
+  rw [hpc] at hp
+  obtain ⟨ocl, q1, q2, q3, q4⟩ := hR.call c cl hc
+  rw [hpc] at q4
+  have q4' : ocl.pc = .abandoned true := q4
+  have hoke : okEntries o ocl.banned ocl.entries (cl.got.map (idOf s)) = true := by
+    rw [q2, q3]; exact okEntries_of_gotOK hR _ _ _ hp.2 hp.1
+  refine ⟨{ o with callers := o.callers.set c { ocl with pc := .abandoned false, banned := removedNow o } }, ?_, ?_, ?_⟩
+  · simp only [Obs.run, Obs.step, q1]
+    rw [if_neg (by rw [q4']; simp [OPC.live]), if_pos ⟨q4', hoke⟩]
+  · refine inv_updCaller hI hc ⟨hok.ne, fun g hg => hg, trivial⟩ rfl ?_ ?_
+    · intro f' fl' hw; exact absurd hw (not_owns_lagging hpc)
+    · intro f' fl' hw; rw [hpc] at hw; cases hw
+  · exact rel_updCaller { ocl with pc := .abandoned false, banned := removedNow o } hR hc q2 (removedNow_eq hR) rfl
+
 /-! ### every step, every schedule -/
 
 theorem step_refines {s s' : State κ} {o : OState κ} {a : Action κ} {evs : List (Ev κ)} (hI : Inv s) (hR : Rel s o)
-    (h : PConn.step s a = some (s', evs)) : ∃ o', Obs.run o evs = some o' ∧ Inv s' ∧ Rel s' o' := by
+    (hS : SInv s)
+    (h : PConn.step s a = some (s', evs)) : ∃ o', Obs.run o evs = some o' ∧ Inv s' ∧ Rel s' o' ∧ SInv s' := by
   cases a with
   | call b es =>
     simp only [PConn.step] at h
@@ -1013,7 +1418,8 @@ theorem step_refines {s s' : State κ} {o : OState κ} {a : Action κ} {evs : Li
     · simp [hes] at h
     · rw [if_neg hes] at h
       injection h with h; injection h with h1 h2; subst h1; subst h2
-      exact call_refines b es hes hI hR
+      obtain ⟨o', q1, q2, q3⟩ := call_refines b es hes hI hR
+      exact ⟨o', q1, q2, q3, sinv_same hS rfl rfl⟩
   | lookup c =>
     simp only [PConn.step] at h
     cases hc : s.callers[c]? with
@@ -1031,15 +1437,18 @@ theorem step_refines {s s' : State κ} {o : OState κ} {a : Action κ} {evs : Li
             simp only [hck] at h
             injection h with h; injection h with h1 h2; subst h1; subst h2
             obtain ⟨q1, q2⟩ := lookup_hit_refines c cl e f hI hR hc hpc he hck
-            exact ⟨o, rfl, q1, q2⟩
+            exact ⟨o, rfl, q1, q2, sinv_same hS rfl rfl⟩
           | none =>
             simp only [hck] at h
             injection h with h; injection h with h1 h2; subst h1; subst h2
             obtain ⟨q1, q2⟩ := lookup_miss_refines c cl e hI hR hc hpc he hck
-            exact ⟨o, rfl, q1, q2⟩
+            exact ⟨o, rfl, q1, q2, sinv_append hS _ rfl rfl rfl⟩
       · rw [if_neg hpc] at h; cases h
   | evict k =>
     simp only [PConn.step] at h
+    by_cases hstrict : s.strict = true
+    · rw [if_pos hstrict] at h; cases h
+    rw [if_neg hstrict] at h
     cases hck : s.cache k with
     | none => simp [hck] at h
     | some g =>
@@ -1048,17 +1457,19 @@ theorem step_refines {s s' : State κ} {o : OState κ} {a : Action κ} {evs : Li
       have h1 : s' = (removeKey s k).1 := by rw [h]
       have h2 : evs = (removeKey s k).2 := by rw [h]
       subst h1; subst h2
-      exact removeKey_refines k hI hR
+      obtain ⟨o', q1, q2, q3⟩ := removeKey_refines k hI hR (fun hst => absurd hst hstrict)
+      exact ⟨o', q1, q2, q3, fun hst => by rw [removeKey_strict] at hst; exact absurd hst hstrict⟩
   | srvPrepare f r =>
     simp only [PConn.step] at h
     cases hf : s.flights[f]? with
     | none => simp [hf] at h
     | some fl =>
       simp only [hf] at h
-      by_cases ha : fl.ans = none
+      by_cases ha : fl.ans = none ∧ fl.spawned = true
       · rw [if_pos ha] at h
         injection h with h; injection h with h1 h2; subst h1; subst h2
-        exact srvPrepare_refines f fl r hI hR hf ha
+        obtain ⟨o', q1, q2, q3⟩ := srvPrepare_refines f fl r hI hR hf ha.1
+        exact ⟨o', q1, q2, q3, sinv_set hS f fl { fl with ans := some r } hf (fun h => Or.inr h) id rfl rfl⟩
       · rw [if_neg ha] at h; cases h
   | complete f =>
     simp only [PConn.step] at h
@@ -1078,11 +1489,13 @@ theorem step_refines {s s' : State κ} {o : OState κ} {a : Action κ} {evs : Li
             simp only [] at h
             injection h with h; injection h with h1 h2; subst h1; subst h2
             obtain ⟨q1, q2⟩ := complete_ok_refines f fl p hI hR hf ha
-            exact ⟨o, rfl, q1, q2⟩
+            exact ⟨o, rfl, q1, q2, sinv_setDone hS f⟩
           | none =>
             simp only [] at h
             injection h with h; injection h with h1 h2; subst h1; subst h2
-            exact complete_fail_refines f fl hI hR hf ha
+            have hd' : fl.done = false := by cases hx : fl.done <;> simp_all
+            obtain ⟨o', q1, q2, q3⟩ := complete_fail_refines f fl hI hR hS hd' hf ha
+            exact ⟨o', q1, q2, q3, sinv_complete_fail hI hS f fl hf hd'⟩
   | observe c a =>
     simp only [PConn.step] at h
     cases hc : s.callers[c]? with
@@ -1091,8 +1504,11 @@ theorem step_refines {s s' : State κ} {o : OState κ} {a : Action κ} {evs : Li
       simp only [hc] at h
       cases hpc : cl.pc with
       | start => simp [hpc] at h
+      | won _ => simp [hpc] at h
       | answered _ => simp [hpc] at h
       | returned => simp [hpc] at h
+      | abandoned => simp [hpc] at h
+      | lagging => simp [hpc] at h
       | waiting f =>
         simp only [hpc] at h
         cases hf : s.flights[f]? with
@@ -1111,14 +1527,16 @@ theorem step_refines {s s' : State κ} {o : OState κ} {a : Action κ} {evs : Li
                 | none =>
                   simp only [ha] at h
                   injection h with h; injection h with h1 h2; subst h1; subst h2
-                  exact observe_fail_refines c f cl fl e hI hR hc hpc hf he hd ha
+                  obtain ⟨o', q1, q2, q3⟩ := observe_fail_refines c f cl fl e hI hR hc hpc hf he hd ha
+                  exact ⟨o', q1, q2, q3, sinv_same hS rfl rfl⟩
                 | some p =>
                   obtain ⟨id, nc⟩ := p
                   simp only [ha] at h
                   by_cases hne : e.2 ≠ nc
                   · rw [if_pos hne] at h
                     injection h with h; injection h with h1 h2; subst h1; subst h2
-                    exact observe_count_refines c f cl fl e id nc hI hR hc hpc hf he ha hne
+                    obtain ⟨o', q1, q2, q3⟩ := observe_count_refines c f cl fl e id nc hI hR hc hpc hf he ha hne
+                    exact ⟨o', q1, q2, q3, sinv_same hS rfl rfl⟩
                   · rw [if_neg hne] at h
                     have hnc : nc = e.2 := by
                       by_cases hq : e.2 = nc
@@ -1128,11 +1546,12 @@ theorem step_refines {s s' : State κ} {o : OState κ} {a : Action κ} {evs : Li
                     by_cases hlen : (cl.got ++ [f]).length = cl.entries.length
                     · rw [if_pos hlen] at h
                       injection h with h; injection h with h1 h2; subst h1; subst h2
-                      exact observe_exec_refines c f cl fl e id a hI hR hc hpc hf he ha hlen
+                      obtain ⟨o', q1, q2, q3⟩ := observe_exec_refines c f cl fl e id a hI hR hc hpc hf he ha hlen
+                      exact ⟨o', q1, q2, q3, sinv_same hS rfl rfl⟩
                     · rw [if_neg hlen] at h
                       injection h with h; injection h with h1 h2; subst h1; subst h2
                       obtain ⟨q1, q2⟩ := observe_more_refines c f cl fl e id hI hR hc hpc hf he ha hlen
-                      exact ⟨o, rfl, q1, q2⟩
+                      exact ⟨o, rfl, q1, q2, sinv_same hS rfl rfl⟩
             · rw [if_neg hd] at h; cases h
   | finish c =>
     simp only [PConn.step] at h
@@ -1142,22 +1561,144 @@ theorem step_refines {s s' : State κ} {o : OState κ} {a : Action κ} {evs : Li
       simp only [hc] at h
       cases hpc : cl.pc with
       | start => simp [hpc] at h
+      | won _ => simp [hpc] at h
       | waiting _ => simp [hpc] at h
       | returned => simp [hpc] at h
+      | abandoned => simp [hpc] at h
+      | lagging => simp [hpc] at h
       | answered a =>
         cases a with
         | ok =>
           simp only [hpc] at h
           injection h with h; injection h with h1 h2; subst h1; subst h2
-          exact finish_ret_refines c cl .ok .ok (Or.inl ⟨rfl, rfl⟩) hI hR hc hpc
+          obtain ⟨o', q1, q2, q3⟩ := finish_ret_refines c cl .ok .ok (Or.inl ⟨rfl, rfl⟩) hI hR hc hpc
+          exact ⟨o', q1, q2, q3, sinv_same hS rfl rfl⟩
         | err =>
           simp only [hpc] at h
           injection h with h; injection h with h1 h2; subst h1; subst h2
-          exact finish_ret_refines c cl .err .execErr (Or.inr ⟨rfl, rfl⟩) hI hR hc hpc
+          obtain ⟨o', q1, q2, q3⟩ := finish_ret_refines c cl .err .execErr (Or.inr ⟨rfl, rfl⟩) hI hR hc hpc
+          exact ⟨o', q1, q2, q3, sinv_same hS rfl rfl⟩
         | unprep id =>
           simp only [hpc] at h
           injection h with h; injection h with h1 h2; subst h1; subst h2
-          exact finish_unprep_refines c cl id _ rfl hI hR hc hpc
+          obtain ⟨o', q1, q2, q3⟩ := finish_unprep_refines c cl id _ rfl hI hR hc hpc
+          refine ⟨o', q1, q2, q3, sinv_same (s := (match unprepKey s cl id with
+            | some k => evictIfMatch s k id
+            | none => (s, [])).1) ?_ rfl rfl⟩
+          cases unprepKey s cl id with
+          | none => exact hS
+          | some k => exact sinv_evictIfMatch hS k id
+  | spawn c =>
+    simp only [PConn.step] at h
+    cases hc : s.callers[c]? with
+    | none => simp [hc] at h
+    | some cl =>
+      simp only [hc] at h
+      cases hpc : cl.pc with
+      | start => simp [hpc] at h
+      | waiting _ => simp [hpc] at h
+      | answered _ => simp [hpc] at h
+      | returned => simp [hpc] at h
+      | abandoned => simp [hpc] at h
+      | lagging => simp [hpc] at h
+      | won f =>
+        simp only [hpc] at h
+        cases hf : s.flights[f]? with
+        | none => simp [hf] at h
+        | some fl =>
+          simp only [hf] at h
+          injection h with h; injection h with h1 h2; subst h1; subst h2
+          obtain ⟨q1, q2⟩ := spawn_refines c f cl fl hI hR hc hpc hf
+          exact ⟨o, rfl, q1, q2, sinv_set hS f fl { fl with spawned := true } hf (fun h => Or.inr h) id rfl rfl⟩
+  | cancel c =>
+    simp only [PConn.step] at h
+    by_cases hlt : c < s.callers.length
+    · rw [if_pos hlt] at h
+      injection h with h; injection h with h1 h2; subst h1; subst h2
+      obtain ⟨o', q1, q2, q3⟩ := cancel_refines c hlt hI hR
+      exact ⟨o', q1, q2, q3, sinv_same hS rfl rfl⟩
+    · rw [if_neg hlt] at h; cases h
+  | abandon c =>
+    simp only [PConn.step] at h
+    cases hc : s.callers[c]? with
+    | none => simp [hc] at h
+    | some cl =>
+      simp only [hc] at h
+      by_cases hcan : s.cancelled c = true
+      · rw [if_pos hcan] at h
+        cases hpc : cl.pc with
+        | start => simp [hpc] at h
+        | won _ => simp [hpc] at h
+        | returned => simp [hpc] at h
+        | abandoned => simp [hpc] at h
+        | lagging => simp [hpc] at h
+        | waiting f =>
+          simp only [hpc] at h
+          injection h with h; injection h with h1 h2; subst h1; subst h2
+          obtain ⟨o', q1, q2, q3⟩ := abandon_refines c cl hI hR hc hcan (Or.inl ⟨f, hpc⟩)
+          exact ⟨o', q1, q2, q3, sinv_same hS rfl rfl⟩
+        | answered a =>
+          simp only [hpc] at h
+          injection h with h; injection h with h1 h2; subst h1; subst h2
+          obtain ⟨o', q1, q2, q3⟩ := abandon_refines c cl hI hR hc hcan (Or.inr ⟨a, hpc⟩)
+          exact ⟨o', q1, q2, q3, sinv_same hS rfl rfl⟩
+      · rw [if_neg hcan] at h; cases h
+  | abandonLate c =>
+    simp only [PConn.step] at h
+    cases hc : s.callers[c]? with
+    | none => simp [hc] at h
+    | some cl =>
+      simp only [hc] at h
+      by_cases hcan : s.cancelled c = true
+      · rw [if_pos hcan] at h
+        cases hpc : cl.pc with
+        | start => simp [hpc] at h
+        | won _ => simp [hpc] at h
+        | answered _ => simp [hpc] at h
+        | returned => simp [hpc] at h
+        | abandoned => simp [hpc] at h
+        | lagging => simp [hpc] at h
+        | waiting f =>
+          simp only [hpc] at h
+          cases hf : s.flights[f]? with
+          | none => simp [hf] at h
+          | some fl =>
+            cases he : cl.entries[cl.got.length]? with
+            | none => simp [hf, he] at h
+            | some e =>
+              simp only [hf, he] at h
+              by_cases hd : fl.done = true
+              · rw [if_pos hd] at h
+                cases ha : fl.ans with
+                | none => simp [ha] at h
+                | some r =>
+                  cases r with
+                  | none => simp [ha] at h
+                  | some p =>
+                    obtain ⟨id, nc⟩ := p
+                    simp only [ha] at h
+                    by_cases hq : e.2 = nc ∧ (cl.got ++ [f]).length = cl.entries.length
+                    · rw [if_pos hq] at h
+                      injection h with h; injection h with h1 h2; subst h1; subst h2
+                      obtain ⟨hnc, hlen⟩ := hq
+                      subst hnc
+                      obtain ⟨o', q1, q2, q3⟩ := abandonLate_refines c f cl fl e id hI hR hc hcan hpc hf he ha hlen
+                      exact ⟨o', q1, q2, q3, sinv_same hS rfl rfl⟩
+                    · rw [if_neg hq] at h; cases h
+              · rw [if_neg hd] at h; cases h
+      · rw [if_neg hcan] at h; cases h
+  | srvLate c a =>
+    simp only [PConn.step] at h
+    cases hc : s.callers[c]? with
+    | none => simp [hc] at h
+    | some cl =>
+      simp only [hc] at h
+      by_cases hpc : cl.pc = .lagging
+      · rw [if_pos hpc] at h
+        injection h with h; injection h with h1 h2; subst h1; subst h2
+        obtain ⟨o', q1, q2, q3⟩ := srvLate_refines c cl a hI hR hc hpc
+        exact ⟨o', q1, q2, q3, sinv_same hS rfl rfl⟩
+      · rw [if_neg hpc] at h; cases h
 
 theorem obs_run_append (o : OState κ) : ∀ (xs ys : List (Ev κ)) (o' o'' : OState κ),
     Obs.run o xs = some o' → Obs.run o' ys = some o'' → Obs.run o (xs ++ ys) = some o''
@@ -1172,12 +1713,12 @@ theorem obs_run_append (o : OState κ) : ∀ (xs ys : List (Ev κ)) (o' o'' : OS
       exact obs_run_append o1 xs ys o' o'' h1 h2
 
 theorem run_refines : ∀ (as : List (Action κ)) (s s' : State κ) (o : OState κ) (evs : List (Ev κ)),
-    Inv s → Rel s o → PConn.run s as = some (s', evs) → ∃ o', Obs.run o evs = some o' ∧ Inv s' ∧ Rel s' o'
-  | [], s, s', o, evs, hI, hR, h => by
+    Inv s → Rel s o → SInv s → PConn.run s as = some (s', evs) → ∃ o', Obs.run o evs = some o' ∧ Inv s' ∧ Rel s' o' ∧ SInv s'
+  | [], s, s', o, evs, hI, hR, hS, h => by
     simp only [PConn.run] at h
     injection h with h; injection h with h1 h2; subst h1; subst h2
-    exact ⟨o, rfl, hI, hR⟩
-  | a :: as, s, s', o, evs, hI, hR, h => by
+    exact ⟨o, rfl, hI, hR, hS⟩
+  | a :: as, s, s', o, evs, hI, hR, hS, h => by
     simp only [PConn.run] at h
     cases hs : PConn.step s a with
     | none => simp [hs] at h
@@ -1190,24 +1731,29 @@ theorem run_refines : ∀ (as : List (Action κ)) (s s' : State κ) (o : OState 
         obtain ⟨s2, e2⟩ := q
         simp only [hr] at h
         injection h with h; injection h with h1 h2; subst h1; subst h2
-        obtain ⟨o1, g1, g2, g3⟩ := step_refines hI hR hs
-        obtain ⟨o2, k1, k2, k3⟩ := run_refines as s1 s2 o1 e2 g2 g3 hr
-        exact ⟨o2, obs_run_append o e1 e2 o1 o2 g1 k1, k2, k3⟩
+        obtain ⟨o1, g1, g2, g3, g4⟩ := step_refines hI hR hS hs
+        obtain ⟨o2, k1, k2, k3, k4⟩ := run_refines as s1 s2 o1 e2 g2 g3 g4 hr
+        exact ⟨o2, obs_run_append o e1 e2 o1 o2 g1 k1, k2, k3, k4⟩
+
+theorem inv_init (b : Bool) : Inv (PConn.initB b : State κ) := by
+  refine ⟨?_, ?_, ?_, ?_, ?_, ?_, ?_⟩ <;> intro a c h <;> simp [PConn.initB] at h
+
+theorem rel_init (b : Bool) : Rel (PConn.initB b : State κ) (Obs.initB b : OState κ) := by
+  refine ⟨rfl, ?_, ?_, ?_, ?_, rfl, rfl⟩
+  · intro c cl h; simp [PConn.initB] at h
+  · intro f; simp [Obs.initB, PConn.initB, absFlight]
+  · intro f h; simp [Obs.initB] at h
+  · intro k; simp [Obs.initB, PConn.initB, unann]
 
 omit [DecidableEq κ] in
-theorem inv_init : Inv (PConn.init : State κ) := by
-  refine ⟨?_, ?_, ?_, ?_, ?_, ?_⟩ <;> intro a b h <;> simp [PConn.init] at h
+theorem sinv_init (b : Bool) : SInv (PConn.initB b : State κ) := by
+  intro _ f fl h; simp [PConn.initB] at h
 
-theorem rel_init : Rel (PConn.init : State κ) (Obs.init : OState κ) := by
-  refine ⟨rfl, ?_, ?_, ?_, ?_⟩
-  · intro c cl h; simp [PConn.init] at h
-  · intro f; simp [Obs.init, PConn.init, absFlight]
-  · intro f h; simp [Obs.init] at h
-  · intro k; simp [Obs.init, PConn.init, unann]
-
-/-- reachable states satisfy the invariant, and the specification accepts the trace -/
-theorem reachable {as : List (Action κ)} {s : State κ} {tr : List (Ev κ)} (h : PConn.run PConn.init as = some (s, tr)) :
-    ∃ o, Obs.run Obs.init tr = some o ∧ Inv s ∧ Rel s o :=
-  run_refines as _ _ _ _ inv_init rel_init h
+/-- reachable states satisfy the invariant, and the specification accepts the trace — with a cache that may purge
+    for capacity (`b = false`) and with one that never does (`b = true`: every removal is justified) -/
+theorem reachable {b : Bool} {as : List (Action κ)} {s : State κ} {tr : List (Ev κ)} (h : PConn.run (PConn.initB b) as = some (s, tr)) :
+    ∃ o, Obs.run (Obs.initB b) tr = some o ∧ Inv s ∧ Rel s o := by
+  obtain ⟨o, h1, h2, h3, _⟩ := run_refines as _ _ _ _ (inv_init b) (rel_init b) (sinv_init b) h
+  exact ⟨o, h1, h2, h3⟩
 
 end C14Conn
